@@ -811,9 +811,10 @@ class BeliefPropagation(Inference):
             marginal_2 = getattr(self.clique_beliefs[edge[1]], operation)(
                 list(frozenset(edge[1]) - sepset), inplace=False
             )
-            if (
-                marginal_1 != marginal_2
-                or marginal_1 != self.sepset_beliefs[sepset_key]
+            # Beliefs are unnormalised: compare with a relative tolerance only, an
+            # absolute one would call small potentials calibrated before they are.
+            if not marginal_1.__eq__(marginal_2, atol=0) or not marginal_1.__eq__(
+                self.sepset_beliefs[sepset_key], atol=0
             ):
                 return False
         return True
